@@ -53,3 +53,11 @@ CASES += [
     dict(id='c06-eq-tuple-end-negated', prop='C06', file='src/celma/common/tuple_at_index.hpp', expect=None,
          old="   if (index >= 0)\n      throw std::out_of_range", new="   if (!(index < 0))\n      throw std::out_of_range"),
 ]
+
+KV = 'src/celma/prog_args/detail/key_value_container_adapter.hpp'
+CASES += [
+    dict(id='c06-keyvalue-add-overwrites', prop='C06', file=KV, expect='R2', count=4,
+         old="      mDestCont.insert( { key, value});", new="      mDestCont.erase( key);\n      mDestCont.insert( { key, value});"),
+    dict(id='c06-eq-keyvalue-add-emplace', prop='C06', file=KV, expect=None, count=4,
+         old="      mDestCont.insert( { key, value});", new="      mDestCont.emplace( key, value);"),
+]
